@@ -19,8 +19,11 @@ claim("C05", "Lean 4 proof that every engine operation is a sequence of tighteni
       "or raises an upper bound. Tied to /repo by exact snapshots after every public call on random programs with consistent and contradictory "
       "data; first-order and quantifier programs are compared with the Lean first-order model and judged by the same snapshot oracle "
       "(bounds and grounding sets).",
-      NOTE_COMMON + " The monotonicity theorem is proved for the propositional engine; for first-order tables and quantifiers the claim rests on "
-      "correspondence with the executable model plus the implementation-side oracle.", "DESIGN.md §6 C05")
+      NOTE_COMMON + " First-order: C05_fol_call / C05_fol_calls / C05_fol_infer / C05_fol_plain (Lemmas/FolMono.lean): for every first-order KB with world "
+      "defaults in [0,1] -- any node kinds incl. Not and fully/partially/nested quantifiers, any weights, alpha, variable maps -- every call, pass and "
+      "infer (any query, step limit), including grounding propagation through partially quantified sub-formulae (Model/FolPend.lean: "
+      "C05_propagate_keeps, C05_layer_calls, C05_layer_is_plain), keeps every stored grounding stored, never lowers its lower or raises its upper bound, "
+      "never touches its data. Tied to /repo by the streams quantifier-free / quantified / 'qparent' with facts arriving between calls.", "DESIGN.md §6 C05")
 claim("C06", "Lean 4 proofs of termination (potential argument) and genuine fixpoint + differential correspondence of sweep counts",
       "Theorems C06_terminates / _two_N / _exists (infer converges within fuel > (Phi+N)/eps sweeps for every KB, schedule and eps > 0), "
       "C06_sweep_zero_fix / C06_fixpoint / C06_fixpoint_grid (a converged infer leaves every upward and downward step of every scheduled formula "
@@ -43,14 +46,18 @@ claim("C13", "Lean 4 proof that reported amount = 0 iff state unchanged for ever
       "infer -- reports 0 exactly when it changed nothing; amounts are non-negative and equal the drop of the total interval width. Tied to /repo "
       "by comparing the returned amount of every node- and model-level call with before/after snapshots and with the model's amount; quantifier "
       "and first-order calls against the first-order model.",
-      NOTE_COMMON + " The model follows the repaired code (Iff/XOr add their inner amounts); the pre-repair behaviour is kept as a corpus witness.", "DESIGN.md §6 C13")
+      NOTE_COMMON + " The model follows the repaired code (Iff/XOr add their inner amounts); the pre-repair behaviour is kept as a corpus witness. First-order: "
+      "C13_fol_nonneg / C13_fol_up_zero_iff / C13_fol_down_zero_iff / C13_fol_pass_zero_iff (Lemmas/FolAmount.lean): for every first-order KB, node kind and "
+      "in-range state a call or any sequence of calls reports 0 iff every grounding of every formula READS as before (stored bounds, else world default; "
+      "rows created at the default change no read); C13_layer_amount carries this through the grounding-propagation layer.", "DESIGN.md §6 C13")
 claim("C17", "Lean 4 proofs of range invariant, contradiction characterisation and totality of state() + exhaustive grid correspondence",
       "Theorems C17_range (every reachable bound in [0,1] for every KB and call sequence), C17_contradiction_iff / _alpha_one / C17_hasContra_iff "
       "(contradiction <=> crossed bounds outside the same-classical-region tolerance; has_contradiction <=> some formula), C17_state_total / "
       "C17_state_cases / C17_state_* (for every alpha > 1/2 every pair of bounds maps to exactly one of the documented states, never the fall-through "
       "sentinel; all eight rows characterised). Tied to /repo by an exhaustive grid of (alpha, L, U) containing every region boundary and its "
       "neighbours through Proposition.add_data/state/is_contradiction/has_contradiction, and a range check of every dump of random programs.",
-      NOTE_COMMON + " The code has eight states (Fact x4, _Fact x4); 'nine documented states' is read as the documented state set.", "DESIGN.md §6 C17")
+      NOTE_COMMON + " The code has eight states (Fact x4, _Fact x4); 'nine documented states' is read as the documented state set. First-order range: "
+      "C17_fol_range / C17_fol_range_infer (all bounds of all groundings stay in [0,1] under any first-order calls).", "DESIGN.md §6 C17")
 claim("C03", "Lean 4 proof that upward+downward on one connective yields exactly the feasible interval hull (explicit convex witnesses) + exact differential correspondence",
       "Theorems C03_{and,or,implies}_operator_hull / _operand_hull (every feasible value is inside the result AND both end points are attained by "
       "feasible assignments: neither looser nor tighter), C03_*_infeasible / _infeasible_reported (no feasible assignment => a contradiction at the "
@@ -66,7 +73,11 @@ claim("C20", "Lean 4 proofs of locality (frame), finality of classical verdicts 
       "infer is nowhere tighter than the full arrest-free fixpoint). Tied to /repo: multi-root KBs, random source and query nodes; the observed call "
       "log must stay inside the source's sub-graph (the hypothesis of C20_local), snapshots outside must be identical, restricted results compared "
       "with the following full fixpoint, early query verdicts with converge=True runs; all runs replayed in the model.",
-      NOTE_COMMON + " Propositional theories; quantified first-order theories are exercised through the first-order correspondence streams only.", "DESIGN.md §6 C20")
+      NOTE_COMMON + " First-order: C20_fol_call_local / C20_fol_pass_local / C20_fol_local (no table outside a descendant-closed set of formulae changes "
+      "under any calls of formulae inside it, incl. grounding propagation through partially quantified sub-formulae and the early exit of a query); "
+      "run_c20_fol ties them to infer(source=) and set_query+infer_query from predicates, connectives and quantifiers (observed calls inside the "
+      "sub-graph, tables outside identical, nothing tighter than the full run). Verdict finality and restricted<=full are theorems for propositional "
+      "theories; for first-order theories they are checked by the oracle.", "DESIGN.md §6 C20")
 claim("C14", "Lean 4 proofs about the table model (reads of absent groundings, row creation at world defaults, axiom invariant) + differential correspondence of store and first-order programs",
       "Theorems C14_get_missing / C14_query_pure / C14_query_unknown (an absent grounding reads as the world default and reading writes nothing), "
       "C14_addg_new_row / _keeps / _keys / _only_world / _read_unchanged and C14_groundings_only_world / _read_unchanged (every row a join, propagation "
@@ -85,8 +96,9 @@ claim("C15", "Lean 4 refinement of the table to a finite map with explicit valid
       "others untouched). Tied to /repo by random add_data/flush/reset_bounds/get_data/state/reset_world/infer sequences over propositional-like, "
       "predicate, connective, negation and quantifier formulae with all encodings and a malformed stream (error class and unchanged table compared "
       "with the model and judged by a model-independent oracle).",
-      NOTE_COMMON + " The model follows the repaired code (floats are range-checked; add_data on a quantifier is kept). add_data on a quantifier WITH "
-      "free variables is outside the store stream (per-group neurons; see DESIGN.md).", "DESIGN.md §6 C15")
+      NOTE_COMMON + " The model follows the repaired code (floats are range-checked; add_data on a quantifier is kept; flush()/reset_world() assert "
+      "every stored row, data included: Table.assertAll, C15_assertAll_rows / C15_flush_reads). Data on a PARTIALLY quantified formula is known "
+      "finding D20 (lost on reset_bounds, refused once inference created the group): replayed by a witness on every run, outside the store stream.", "DESIGN.md §6 C15")
 claim("C16", "Lean 4 proof of history independence of the session model + differential reset/rerun correspondence (propositional and first-order)",
       "Theorems C16_leaves_invariant / C16_reset_restores / C16_rerun_equal / C16_second_run: in the session model (asserted data + working bounds) "
       "no history of inference calls, observations and resets changes the data, reset_bounds() restores it exactly, and any inference sequence after a "
